@@ -437,6 +437,11 @@ def new_cmd(rnd, m, name, files, produced, aliases):
     if rnd.random() < 0.3:
         st.reads_file = "src/%s.reads" % name
         st.imps.append(st.reads_file)
+        if rnd.random() < 0.5 and not any(m.producer(f) is not None and m.producer(f).kind == CMD for f in st.oos):
+            # the generated-header pattern: order after the generator, read the header, report it through the depfile (see gen_reads)
+            cand = [f for f in produced if f not in st.ins + st.imps + st.oos]
+            if cand:
+                st.oos.append(rnd.choice(cand))
     x = rnd.random()
     if x < 0.22:
         st.restat = True
